@@ -25,9 +25,9 @@ PROPERTY = 'C13'
 GEN_MODULES = ['lexgen', 'literals', 'consteval', 'hashmap', 'pp', 'c10incl', 'c10ifparse', 'declspec', 'casttable', 'templates',
                'c14args', 'strjoin']
 LEAN_TARGETS = ['ChibiVerif.Props.C13', 'ChibiVerif.Props.C13Components', 'ChibiVerif.Props.C13Sites', 'ChibiVerif.Props.C13Codegen',
-                'ChibiVerif.Findings.C13', 'ChibiVerif.Findings.C13Sites']
+                'ChibiVerif.Props.C13InitHang', 'ChibiVerif.Findings.C13', 'ChibiVerif.Findings.C13Sites']
 PROPS_FILES = ['ChibiVerif/Props/C13.lean', 'ChibiVerif/Props/C13Components.lean', 'ChibiVerif/Props/C13Sites.lean',
-               'ChibiVerif/Props/C13Codegen.lean']
+               'ChibiVerif/Props/C13Codegen.lean', 'ChibiVerif/Props/C13InitHang.lean']
 NEEDS_HOOKS = False
 TRUSTED_BASE = [
     'Lean 4.33.0 kernel; axioms admitted: propext, Classical.choice, Quot.sound (audited per theorem on every run)',
@@ -925,6 +925,142 @@ ABORT_CALL = re.compile(r'\bunreachable\s*\(\s*\)')
 COV_FILES = ['tokenize.c', 'preprocess.c', 'parse.c', 'type.c', 'codegen.c', 'main.c', 'unicode.c', 'hashmap.c', 'strings.c']
 
 
+def init_fuel_cases(rng, thorough):
+    """adversarial declarations for the recursion budget of the initializer parser, in C05's vocabulary (type, tokens, C text)"""
+    from . import C05 as c5
+    INT = c5.BYNAME['int']
+    def one(v=1):
+        return c5.Ex(str(v), ival=v)
+    def lst(n):
+        out = []
+        for k in range(n):
+            out += ([','] if k else []) + [one(k + 1)]
+        return out
+    cases = []
+    def add(name, ty, toks):
+        cases.append({'name': name, 'ty': ty, 'toks': toks})
+    depths = [1, 2, 3, 7, rng.randint(8, 24), rng.randint(25, 60)] + ([rng.randint(61, 150), 200] if thorough else [])
+    for d in depths:
+        add(f'scalar-braces-{d}', INT, ['{'] * d + [one()] + ['}'] * d)
+        t = INT
+        for _ in range(d):
+            t = c5.Arr(t, 1)
+        add(f'arr-nest-expr-{d}', t, [one()])
+        add(f'arr-nest-braces-{d}', t, ['{'] * d + [one()] + ['}'] * d)
+        add(f'arr-nest-desg-{d}', t, ['{'] + [('[', 0)] * d + ['=', one(), '}'])
+        add(f'arr-nest-desg-oob-{d}', t, ['{'] + [('[', 0)] * (d - 1) + [('[', 1), '=', one(), '}'])
+        t2 = INT
+        for _ in range(d - 1):
+            t2 = c5.Arr(t2, 1)
+        t2 = c5.Arr(t2, None)
+        add(f'inc-nest-braces-{d}', t2, ['{'] * d + [one()] + ['}'] * d)
+        add(f'inc-nest-expr-{d}', t2, [one()])
+        add(f'inc-nest-list-{d}', t2, ['{'] + lst(d) + ['}'])
+        s_ = INT
+        for _ in range(d):
+            s_ = c5.Agg(False, [c5.Mem('m', s_)])
+        add(f'st-nest-expr-{d}', s_, [one()])
+        add(f'st-nest-brace1-{d}', s_, ['{', one(), '}'])
+        add(f'st-nest-braces-{d}', s_, ['{'] * d + [one()] + ['}'] * d)
+        add(f'st-nest-desg-{d}', s_, ['{'] + [('.', 'm')] * d + ['=', one(), '}'])
+        add(f'st-nest-desg-nomem-{d}', s_, ['{'] + [('.', 'm')] * (d - 1) + [('.', 'zz'), '=', one(), '}'])
+        a = c5.Agg(False, [c5.Mem('leaf', INT)])
+        for _ in range(d - 1):
+            a = c5.Agg(bool(rng.getrandbits(1)), [c5.Mem(None, a)])
+        add(f'anon-nest-desg-{d}', a, ['{', ('.', 'leaf'), '=', one(), '}'])
+        add(f'anon-nest-desg2-{d}', a, ['{', ('.', 'leaf'), '=', one(), ',', ('.', 'leaf'), '=', one(2), '}'])
+        u = INT
+        for _ in range(d):
+            u = c5.Agg(True, [c5.Mem('m', u), c5.Mem('k', INT)])
+        add(f'un-nest-expr-{d}', u, [one()])
+        add(f'un-nest-braces-{d}', u, ['{'] * d + [one()] + ['}'] * d)
+        add(f'un-nest-desg-{d}', u, ['{'] + [('.', 'm')] * d + ['=', one(), ',', ('.', 'k'), '=', one(2), '}'])
+        b = c5.Agg(False, [c5.Mem(None, INT, bw=1) for _ in range(d)] + [c5.Mem('x', INT)])
+        add(f'bf-skip-{d}', b, ['{', one(), '}'])
+        add(f'bf-skip-nobrace-{d}', c5.Agg(False, [c5.Mem('s', b), c5.Mem('y', INT)]), ['{', one(), ',', one(2), '}'])
+        add(f'list-{d}', c5.Arr(INT, d), ['{'] + lst(d) + ['}'])
+        add(f'list-trailing-{d}', c5.Arr(INT, d), ['{'] + lst(d) + [',', '}'])
+        add(f'list-inc-{d}', c5.Arr(INT, None), ['{'] + lst(d) + ['}'])
+        add(f'list-short-{d}', c5.Arr(INT, 1000 * d), ['{'] + lst(d) + ['}'])
+        add(f'excess-{d}', c5.Arr(INT, 1), ['{', one()] + [',', '{', '{', one(), '}', '}'] * d + ['}'])
+        add(f'excess-deep-{d}', c5.Arr(INT, 0), ['{'] + ['{'] * d + [one()] + ['}'] * d + ['}'])
+        add(f'excess-struct-{d}', c5.Agg(False, [c5.Mem('x', INT)]), ['{'] + lst(d + 1) + ['}'])
+        add(f'missing-comma-{d}', c5.Arr(INT, d + 1), ['{', one(), one(2), '}'])
+        add(f'unclosed-{d}', c5.Arr(INT, d + 1), ['{'] + lst(d))
+        add(f'empty-struct-array-{d}', c5.Arr(c5.Agg(False, []), d), ['{', '}'])
+        add(f'empty-struct-array-list-{d}', c5.Arr(c5.Agg(False, []), d), ['{'] + [x for k in range(d) for x in (([','] if k else []) + ['{', '}'])] + ['}'])
+        add(f'range-{d}', c5.Arr(INT, 10 * d), ['{', ('[..', 0, 10 * d - 1), '=', one(), ',', ('[', d), '=', one(2), '}'])
+        add(f'range-nest-{d}', c5.Arr(c5.Arr(INT, 3), 2 * d), ['{', ('[..', 1, 2 * d - 1), ('[..', 0, 2), '=', one(), '}'])
+        fx = c5.Agg(False, [c5.Mem('n', INT), c5.Mem('d', c5.Arr(INT, 0))], flex=True)
+        add(f'flex-{d}', fx, ['{', one(), ',', '{'] + lst(d) + ['}', '}'])
+        add(f'flex-nobrace-{d}', fx, ['{', one(), ','] + lst(d) + ['}'])
+    add('big-array-one', c5.Arr(INT, 100000), ['{', one(), '}'])
+    add('big-array-last', c5.Arr(INT, 100000), ['{', ('[', 99999), '=', one(), '}'])
+    add('big-array-empty', c5.Arr(INT, 100000), ['{', '}'])
+    return cases
+
+
+def init_fuel_tie(ctx, corr, runner, km):
+    """the recursion budget of the initializer parser (Lemmas/C13InitFuel: needFuel, proved sufficient) through `drv_c13 initfuel`
+    against cc1 on adversarial declarations: the model never answers `fuel`, the minimal budget is at most needFuel, the answer at
+    needFuel is parseInit's, and cc1 itself ends (accepts exactly when the model accepts with nothing left, else one diagnostic)"""
+    from . import C05 as c5
+    cases = init_fuel_cases(ctx.rng, ctx.thorough)
+    lines = [' '.join(c5.ty_words(c['ty']) + ['|'] + c5.tok_words(c['toks'])) for c in cases]
+    try:
+        out = ctx.driver('initfuel', '\n'.join(lines) + '\n', timeout=900).splitlines()
+    except ModelBuildFailure:
+        raise
+    except Exception as ex:
+        corr.disagreements.append({'kind': 'driver', 'input': '', 'model': str(ex)[:300], 'impl': '', 'note': 'drv_c13 initfuel failed'})
+        return
+    if len(out) != len(cases):
+        corr.disagreements.append({'kind': 'driver', 'input': '', 'model': f'{len(out)} lines', 'impl': f'{len(cases)} cases', 'note': 'initfuel'})
+        return
+
+    def impl(c):
+        defs = []
+        c5.ty_defs(c['ty'], defs, set())
+        text = ' '.join(defs) + '\n' + f"{c5.decl(c['ty'], 'x')} = {c5.tok_c(c['toks'])};\n"
+        c['data'] = text.encode()
+        r = runner.run_case({'gen': 'init-fuel', 'family': 'init-fuel', 'data': c['data'], 'opts': []}, which='plain')
+        return r['final']
+    with concurrent.futures.ThreadPoolExecutor(max_workers=NPROC) as ex:
+        finals = list(ex.map(impl, cases))
+    tight = 0
+    for c, line, mo, f in zip(cases, lines, out, finals):
+        corr.evaluations += 1
+        corr.count('init_fuel_tie')
+        m = re.match(r'(ok|diag|crash|fuel) rest=(\S+)(?: msg=\S+)? need=(\d+) std=(\d+) min=(\S+) stable=([01])$', mo)
+        note = f"Lemmas/C13InitFuel (needFuel) / Model/Init.parseInit vs chibicc -cc1 [{c['name']}]"
+        if not m:
+            corr.disagreements.append({'kind': 'init-fuel', 'input': show(c['data']), 'input_b64': b64(c['data']), 'model': mo,
+                                       'impl': f['cls'], 'note': note + ' (unparsable answer; line: ' + line[:200] + ')'})
+            continue
+        cls, rest, need, std, mn, stable = m.group(1), m.group(2), int(m.group(3)), int(m.group(4)), m.group(5), m.group(6)
+        corr.count('init_fuel_tie:' + cls)
+        if f['cls'] in BAD:
+            e = {'what': f'cc1 outcome {f["cls"]} at {f.get("site")} on an initializer', 'signature': f.get('sig'), 'input': show(c['data']),
+                 'input_b64': b64(c['data']), 'opts': [], 'expected': 'assembly or one located diagnostic (the parser terminates: C13_init_no_hang)',
+                 'got': f"{f['cls']} {f.get('detail', '')}"}
+            kid = match_known(f.get('sig'), km)
+            if kid:
+                e['known_id'] = kid
+                corr.known_hits.append(kid)
+            corr.violations.append(e)
+            continue
+        want = 'ok' if (cls == 'ok' and rest == '0') else 'diag'
+        got = 'ok' if f['cls'] == 'ok' else ('diag' if f['cls'] in ('diag', 'bad-location') else f['cls'])
+        if cls in ('fuel', 'crash') or mn == 'over' or stable != '1' or need > std or want != got:
+            corr.disagreements.append({'kind': 'init-fuel', 'input': show(c['data']), 'input_b64': b64(c['data']), 'model': mo,
+                                       'impl': f"{f['cls']} {f.get('msg') or ''}"[:200], 'note': note})
+            continue
+        if int(mn) + 8 >= need:
+            tight += 1
+        corr.nontrivial.add('initfuel:' + hashlib.sha1(c['data']).hexdigest())
+    corr.extra['init_fuel_tie'] = {'cases': len(cases), 'minimal budget within 8 of needFuel': tight}
+
+
 def build_cov(ctx):
     dst = os.path.join(ctx.scratch, 'repo_cov')
     exe = os.path.join(dst, 'chibicc')
@@ -1083,6 +1219,9 @@ def correspond(ctx, corr):
     # 5b. the instrumented literal readers (Model/C13Sites.lexLiteralI, proved equal to C11's lexLiteral) against the tokenizer
     literal_tie(ctx, corr, runner, G.gen_literal_texts(rng, 250 * scale))
 
+    # 5b'. the recursion budget of the initializer parser (Props/C13InitHang.lean) against cc1 on adversarial declarations
+    init_fuel_tie(ctx, corr, runner, km)
+
     # 5c. which diagnostic call sites of the C code did the seeds / the campaign reach (gcov; evidence only)
     try:
         site_coverage(ctx, corr, runner, reg + seeds, must + cases)
@@ -1169,10 +1308,12 @@ MANIFEST = {
                   'no assert on any well-formed table (C13_rehash_nocrash from C17_rehash_spec); struct_decl/union_decl '
                   'division sites characterised exactly and never reached on any type description (with C08); get_struct_member; the '
                   'twelve mutually recursive functions of the initializer parser never index outside an initializer tree for every '
-                  'type, token list and recursion budget; the literal readers never read behind the terminating NUL on any byte '
+                  'type, token list and recursion budget, and never exhaust the budget: 2*tokens + 4*type nodes calls suffice for every type '
+                  'and token list (C13_init_no_hang, C13_init_fuel_bound; `parseInit` is total on front-end inputs: C13_parseInit_total), '
+                  'the bound run against cc1 on adversarial declarations; the literal readers never read behind the terminating NUL on any byte '
                   'list (instrumented double proved equal to C11\'s model); read_macro_args, the #if machine and its arithmetic; '
                   'gen_expr/gen_addr/gen_stmt fail only with located diagnostics on trees carrying their types (calls and atomics '
-                  'outside).  Open: termination of the initializer parser within its budget; code generation of calls/atomics; the '
+                  'outside).  Open: code generation of calls/atomics; the '
                   'parser and type checker as a whole are not modelled: for them the property is sampled by an outcome-class campaign '
                   'on the plain and the ASan/UBSan binary (about 3k inputs quick, 30k thorough), with one seed per reachable '
                   'error_tok/error_at call site (gcov-counted in the evidence).',
